@@ -8,7 +8,7 @@ def queries():
             qs.append(Query('splay_%s_h%d' % ('multi' if dup else 'set', h), 'C17_splay.cpp', 'h_splay',
                             'SplayTree<uint8_t, less, Duplicates=%s>: %d symbolic operations (insert, erase, exists, find, clear) over keys 0..3, incl. empty tree and reuse after clear(); after each step size, in-order sequence, check(); leak/double-free checks' % ('true' if dup else 'false', h),
                             defs=['DUP=%d' % dup, 'H=%d' % h], cbmc=['--memory-leak-check'], tiers=('quick', 'thorough') if quick else ('thorough',), timeout=900 if quick else 3600, unwind=4, weight=h))
-    for pre, h, quick in ((1, 3, True), (2, 3, False), (2, 4, False)):      # measured: pre1_h3 ~26 min, pre2_h3 > 30 min -> thorough
+    for pre, h, quick in ((1, 3, False), (2, 3, False), (2, 4, False)):      # measured: pre1_h3 ~26 min, pre2_h3 > 30 min -> thorough
         qs.append(Query('splay_multi_pre%d_h%d' % (pre, h), 'C17_splay.cpp', 'h_splay',
                         'SplayTree<uint8_t, less, Duplicates=true>: prefix script (insert 1,1,1%s: a run of equivalent keys), then %d symbolic operations over keys 0..%d; same checks' % (',0' if pre == 2 else '', h, 2 if quick else 3),
                         defs=['DUP=1', 'H=%d' % h, 'PRE=%d' % pre] + (['NKEY=3'] if quick else []), cbmc=['--memory-leak-check'], tiers=('quick', 'thorough') if quick else ('thorough',), timeout=3600 if quick else 7200, unwind=4, weight=h + 20))
